@@ -505,7 +505,7 @@ theorem abs_client_quiet {b b' : BState} {i : Nat} {o o' : Oracle} {pc : CPc}
     of a multi-key read — finds `S.look (abs b.g) k` for the state `b` in which THAT action runs (for a multi-key read:
     each key at its own instant, not a snapshot), and no read action changes the abstract state; the `pool.add` action
     that follows a hit delivers exactly the value found.
-    `S.look`, not `S.read`: the flag is looked at by the call's FIRST action only (`reads_flag_check`); if it is
+    `S.look`, not `S.read`: the flag is looked at by actions BEFORE the lookup only (`reads_flag_check`); if it is
     still lowered when the lookup runs the two agree (`reads_agreeB_running`), if it has been raised in between the
     lookup still finds the value (`readB_ignores_flag`, a reachable run). -/
 theorem reads_agreeB {b b' : BState} {i : Nat} {o o' : Oracle} (h : stepB b (.client i) o = .ok (b', o')) :
@@ -562,26 +562,49 @@ theorem look_eq_read {sp : S} (hs : sp.shut = false) (k : Nat) : sp.look k = sp.
 theorem reads_agreeB_running {b : BState} (hs : b.g.shutting = false) (k : Nat) :
     (abs b.g).look k = (abs b.g).read k := look_eq_read hs k
 
-/-- the FIRST action of every read looks at the flag: raised, the call returns at once what `S.read` /
-    `S.readMany` say (absent; the empty list), and nothing changes -/
+/-- the FIRST action of `get` / `get_ref` looks at the flag: raised, the call returns at once what `S.read` says
+    (absent), and nothing changes.  A multi-key read loads the flag in actions of its own: its first action looks at
+    nothing, and the load that follows — the one of `next()` / at the entry of `multi_get` —, finding the flag raised
+    with nothing gathered yet, returns what `S.readMany` says (the empty list).
+    STATEMENT CHANGED with the model (every flag load of a multi-key read its own action): the third clause used to say
+    that the first action of a multi-key read returns `readMany ks`; it is now the two clauses about `.start (.mget …)`
+    and `.mgetFlag true ks [] iter`.  (Later loads of the same read: `C13_layerB_mget_flag_outer`,
+    `C13_layerB_mget_flag_inner`, `C13_layerB_mget_around_shutdown` — a `get` of the read that finds the flag raised
+    answers absent for its key, which is what `S.read` says at that instant.) -/
 theorem reads_flag_check {b b' : BState} {i : Nat} {o o' : Oracle} (h : stepB b (.client i) o = .ok (b', o'))
     (hs : b.g.shutting = true) :
     (∀ k, b.cl[i]? = some (.start (.get k)) → b' = finishCall b i (.value ((abs b.g).read k))) ∧
     (∀ k, b.cl[i]? = some (.start (.getRef k)) → b' = finishCall b i (.value ((abs b.g).read k))) ∧
-    (∀ ks iter, b.cl[i]? = some (.start (.mget ks iter)) → b' = finishCall b i (.values ((abs b.g).readMany ks))) := by
+    (∀ ks iter, b.cl[i]? = some (.start (.mget ks iter)) → b'.g = b.g ∧
+      (b' = finishCall b i (.values ((abs b.g).readMany ks)) ∨ b' = setClient b i (.mgetFlag true ks [] iter))) ∧
+    (∀ ks iter, b.cl[i]? = some (.mgetFlag true ks [] iter) →
+      b' = finishCall b i (.values ((abs b.g).readMany ks))) ∧
+    (∀ k ks acc iter, b.cl[i]? = some (.mgetFlag false (k :: ks) acc iter) →
+      b' = mgetNext b i ks (acc ++ [(abs b.g).read k]) iter) := by
   have h' : clientAct b i o = .ok (b', o') := h
   have hr : ∀ k, (abs b.g).read k = none := fun k => read_shut _ _ hs
-  refine ⟨fun k hpc => ?_, fun k hpc => ?_, fun ks iter hpc => ?_⟩
+  have hm : ∀ ks, (abs b.g).readMany ks = [] := fun ks => by simp [S.readMany, abs, hs]
+  refine ⟨fun k hpc => ?_, fun k hpc => ?_, fun ks iter hpc => ?_, fun ks iter hpc => ?_, fun k ks acc iter hpc => ?_⟩
   · unfold clientAct at h'
     simp only [hpc, hs, if_true, Except.ok.injEq, Prod.mk.injEq] at h'
     rw [hr]; exact h'.1.symm
   · unfold clientAct at h'
     simp only [hpc, hs, if_true, Except.ok.injEq, Prod.mk.injEq] at h'
     rw [hr]; exact h'.1.symm
-  · unfold clientAct at h'
-    simp only [hpc, hs, if_true, Except.ok.injEq, Prod.mk.injEq] at h'
-    have : (abs b.g).readMany ks = [] := by simp [S.readMany, abs, hs]
-    rw [this]; exact h'.1.symm
+  · obtain ⟨rfl, _⟩ := clientAct_mgetStart hpc h'
+    refine ⟨mgetStart_g _ _ _ _, ?_⟩
+    rw [hm]
+    rcases mgetStart_spec b i ks iter with ⟨_, _, e⟩ | ⟨_, e⟩
+    · exact Or.inl e
+    · exact Or.inr e
+  · have := C13_layerB_mget_flag_outer o hs hpc
+    rw [this] at h'
+    simp only [Except.ok.injEq, Prod.mk.injEq] at h'
+    rw [hm]; exact h'.1.symm
+  · have := (C13_layerB_mget_flag_inner o hs hpc).1
+    rw [this] at h'
+    simp only [Except.ok.injEq, Prod.mk.injEq] at h'
+    rw [hr]; exact h'.1.symm
 
 /-! ### 6. `KeyStepB` is `KeyStep` plus one clause; inversion -/
 
@@ -1817,10 +1840,12 @@ theorem rewritten_with_flag_up :
   · exact KeyStepB.rewritten ⟨100, some 5⟩ (some 777) none false rfl
   · exact ⟨1, some 3, rfl, rfl⟩
 
-/-- `multi_get([1, 1])` by client 0: the lookup of the first position finds 100 (`pool.add` follows); `delete(1)` by
-    client 1 runs its `delete.mark`; the lookup of the second position finds nothing; the call returns -/
+/-- `multi_get([1, 1])` by client 0: (first action, the load at the entry, the load inside `get`,) the lookup of the
+    first position finds 100 (`pool.add` follows); `delete(1)` by client 1 runs its `delete.mark`; (the load inside the
+    second `get`, then) the lookup of the second position finds nothing; the call returns -/
 def mgetRaceRun : List (Act × Oracle) :=
-  baseB ++ call 0 (.mget [1, 1] false) 2 ++ [(.client 0, { pool := [0] })] ++ call 1 (.delete 1) 2 ++ [(.client 0, noO)]
+  baseB ++ call 0 (.mget [1, 1] false) 4 ++ [(.client 0, { pool := [0] })] ++ call 1 (.delete 1) 2 ++
+    [(.client 0, noO), (.client 0, noO)]
 
 /-- **Deviation 7 (`S.readMany`).**  Layer A: `multi_get(ks)` is one `read` per key, all at the SAME instant.  FALSE at
     action granularity: every position is looked up at its own instant (`reads_agreeB`, third clause).
